@@ -44,13 +44,18 @@ Inductive apc_t :=
 | APut (a : nat)     (* env.step: self._out_queue.put(action) *)
 | AGet (a : nat)     (* env.step: self._in_queue.get() *)
 | ADone              (* _train returned *)
-| AErr.              (* the thread died of an exception (invalid action / reward without reference loss) *)
+| AErr.              (* the thread died of an exception (invalid action / reward without reference loss / reference loss 0) *)
 
 (* message on the outcome queue: None = end marker; Some (best_loss, ghost: batch that produced it) *)
 Definition msg := option (Q * nat).
 
 (* mab.py:44-48   (reward, new _curr_best_loss) *)
 Definition reward (c b : Q) : Q * Q := if Qle_bool c b then (0%Q, c) else (((c - b) / c)%Q, b).
+(* mab.py:46: `best_loss` and `_curr_best_loss` are Python floats (rl_scheduler.py:152 `float(np.min(...))`), so the division
+   raises ZeroDivisionError when the loss improved on a reference that is exactly 0 (Coq's `/` would silently give 0):
+   the exception leaves env.step and _train, i.e. the agent's thread dies, after the outcome was taken off the queue and
+   before _curr_best_loss is written. *)
+Definition reward_raises (c b : Q) : bool := negb (Qle_bool c b) && Qeq_bool c 0.
 (* rl_scheduler.py:154-155   `if best_new_loss < self._best_loss` *)
 Definition better (old l : Q) : Q := if Qle_bool old l then old else l.
 
@@ -110,7 +115,8 @@ Section Proto.
         | Some (b, src) :: q =>
             match cbl s with
             | None => Some (set_apc AErr (set_oq q s))
-            | Some c => let (r, c') := reward c b in Some (choose (do_learn a r (Some src) (Some c') q s))
+            | Some c => if reward_raises c b then Some (set_apc AErr (set_oq q s))
+                        else let (r, c') := reward c b in Some (choose (do_learn a r (Some src) (Some c') q s))
             end
         end
     | _ => None
@@ -128,7 +134,8 @@ Section Proto.
         | Some (b, src) :: q =>
             match cbl s with
             | None => Some (set_apc AErr (set_oq q s))
-            | Some c => let (r, c') := reward c b in Some (set_apc ARead (do_learn a r (Some src) (Some c') q s))
+            | Some c => if reward_raises c b then Some (set_apc AErr (set_oq q s))
+                        else let (r, c') := reward c b in Some (set_apc ARead (do_learn a r (Some src) (Some c') q s))
             end
         end
     | _ => None
